@@ -35,6 +35,9 @@ def main(tier, replay=None):
     pb = 2 if tier == "quick" else 4
     for prog in ("rspawn", "lspawn"):
         vk_run(res, "c18spawn", plain, rd, "%d,0,0,0" % pb, pb, 1500, "%s-relays-child-fate" % prog, opts=["family=fate", "prog=" + prog])
+    # program level: the real qmail-remote process with scripted resolver answers, connect() outcomes and SMTP server
+    for fam, opts in (("dns", []), ("connect", []), ("smtp", ["maxrcpt=%d" % (2 if tier == "quick" else 3)]), ("msg", ["maxlen=%d" % (3 if tier == "quick" else 5)])):
+        vk_run(res, "remote", plain, rd, "0,0,0,0", 0, 1500, "qmail-remote-process-" + fam, opts=["family=" + fam] + opts)
     res.rule = ("depth-first enumeration of the complete tree of server scripts: at each phase (greeting, HELO, MAIL, each RCPT, DATA, "
                 "final dot) every answer of the phase's pool (reply codes of classes 2xx-5xx incl. boundary codes 399/400/499/500/599 in "
                 "single-line, multi-line and odd forms; garbage reply; disconnect or stall before / inside a reply), pruned only where the "
@@ -44,7 +47,12 @@ def main(tier, replay=None):
     res.rule += ("; process level (VK): the real qmail-rspawn and qmail-lspawn with a scripted delivery program that prints one of 9 "
                  "reports, closes its output and then exits 0/1/100/111 or dies from SIGSEGV/SIGKILL, under every interleaving of spawner and "
                  "child within the preemption bound (%d): the relayed status must follow the child's fate (crash/111 -> Z, other failure -> D)" % pb)
+    res.rule += ("; program level (VK): the real qmail-remote process with the resolver, connect() and the peer scripted: 13 DNS situations (MX with "
+                 "and without addresses, fallback to the host's address, no such domain, resolver failure, MX pointing back to this host, CNAME-only, "
+                 "truncated/short MX records), 3 candidate addresses x {connected, refused, timed out, asynchronously connected/refused} each x "
+                 "{normal, 4xx greeting}: attempts in preference order stopping at the first success; 1-3 recipients x the tree of {2xx,4xx,5xx,"
+                 "closed,stalled until the timeout} per phase; verdicts, order of reports, 'possible duplicate' flag and exit status against the reference")
     res.assumptions = ["reference verdict function written from qmail-remote(8) and the property statement (seq/c09_remote.c ref_verdict)",
-                       "network = harness stand-ins for timeoutread/timeoutwrite; DNS/connect phase not exercised here"]
-    res.require_nonzero("evaluations", "verdict_K", "verdict_Z", "verdict_D", "possible_duplicate", "chained_into_report")
+                       "function level: network = harness stand-ins for timeoutread/timeoutwrite; program level: resolver answers, connect() results and the peer are scripted by the virtual kernel scenario (vk/scn_remote.cpp)"]
+    res.require_nonzero("evaluations", "verdict_K", "verdict_Z", "verdict_D", "possible_duplicate", "chained_into_report", "connect_attempts", "dns_queries", "messages_decoded_from_wire")
     return res.finish()
